@@ -162,8 +162,11 @@ def gen_case(rng, k, tier):
         data.append(m)
     rows, cols = (1, ports) if t == "ZIN" else (ports, ports)
     obj = D.Obj(t, rows, cols, freqs, data, z0=z0, fz0=fz0)
+    # vnadata_cksave persists what it derives (file type promotion, default format): half of the cases save an
+    # object that was never checked first, and ask cksave afterwards
+    save_first = rng.random() < 0.5
     return {"id": "c%d" % k, "obj": obj, "name": name, "setft": setft, "format": fmt, "fprec": fprec,
-            "dprec": dprec, "kind": kind, "zmode": zmode, "scaled": scale}
+            "dprec": dprec, "kind": kind, "zmode": zmode, "scaled": scale, "save_first": save_first}
 
 
 def case_cmds(c):
@@ -174,7 +177,10 @@ def case_cmds(c):
         cmds.append("format 0 %s" % c["format"])
     cmds.append("fprec 0 %d" % c["fprec"])
     cmds.append("dprec 0 %d" % c["dprec"])
-    cmds += ["cksave 0 %s" % c["name"], "save 0 %s" % c["name"], "new 1 -1 0 0 0"]
+    if c.get("save_first"):
+        cmds += ["save 0 %s" % c["name"], "cksave 0 %s" % c["name"], "new 1 -1 0 0 0"]
+    else:
+        cmds += ["cksave 0 %s" % c["name"], "save 0 %s" % c["name"], "new 1 -1 0 0 0"]
     if c["setft"] is not None:
         cmds.append("filetype 1 %d" % c["setft"])
     cmds += ["load 1 %s @" % c["name"], "dump 1", "dump 0"]
@@ -661,13 +667,13 @@ def directed_cases():
     import random
     rng = random.Random(12345)
 
-    def mk(cid, t, ports, fmt, name, dprec=6, fprec=7, z0v=50.0, setft=None, nf=2):
-        z0 = [complex(z0v, 0)] * ports
+    def mk(cid, t, ports, fmt, name, dprec=6, fprec=7, z0v=50.0, setft=None, nf=2, save_first=False, z0list=None):
+        z0 = [complex(z0v, 0)] * ports if z0list is None else [complex(x, 0) for x in z0list]
         data = [D.convert(rand_s(rng, ports), "S", t, z0) for _ in range(nf)]
         rows, cols = (1, ports) if t == "ZIN" else (ports, ports)
         o = D.Obj(t, rows, cols, [1e9 * (i + 1) for i in range(nf)], data, z0=z0)
         out.append({"id": cid, "obj": o, "name": name, "setft": setft, "format": fmt, "fprec": fprec, "dprec": dprec,
-                    "kind": "directed", "zmode": "equal", "scaled": False})
+                    "kind": "directed", "zmode": "equal", "scaled": False, "save_first": save_first})
     mk("d31", "S", 3, "IL,Sri", "a.npd")
     mk("d31b", "S", 4, "Sma,IL", "a.npd")
     mk("d32", "S", 3, "Hri", "a.npd")
@@ -678,6 +684,15 @@ def directed_cases():
     mk("df1b", "Y", 3, None, "a.s3p", z0v=75.0)
     mk("df1c", "H", 2, "ma", "a.s2p", z0v=75.0)
     mk("il_only", "S", 2, "IL,RL,VSWR", "a.npd")
+    # Touchstone 1 set explicitly, ".ts" name, promotion to version 2 forced (ports > 4 / unequal z0), saved
+    # without an earlier cksave (which would persist the promoted type) and with it
+    for sf in (True, False):
+        tag = "s" if sf else "c"
+        mk("promo5" + tag, "S", 5, "Zri", "a.ts", z0v=75.0, setft=D.FT_TS1, save_first=sf)
+        mk("promo5y" + tag, "Y", 6, "Yma", "a.ts", z0v=20.0, setft=D.FT_TS1, save_first=sf)
+        mk("promoz" + tag, "S", 3, "Sri", "a.ts", setft=D.FT_TS1, save_first=sf, z0list=[50.0, 75.0, 50.0])
+        mk("promoz2" + tag, "Z", 2, "Zri", "a.ts", setft=D.FT_TS1, save_first=sf, z0list=[10.0, 75.0])
+        mk("keep1" + tag, "S", 2, "Zri", "a.ts", z0v=75.0, setft=D.FT_TS1, save_first=sf)
     for p in (1, 2, 3, 16, 17, MAXP):
         mk("prec%d" % p, "S", 2, "Sri,Sma,SdB", "a.npd", dprec=p, fprec=p)
         mk("precz%d" % p, "Z", 2, "Zri", "a.s2p", dprec=p, fprec=p, z0v=51.37)
